@@ -428,6 +428,31 @@ func run(c *Ctx) {
 	one(c, sess{[]string{"k = macro(len){quote(unquote(len)+1)}\nk(5)\nlen([1,2])\n"}, []string{"((5)+1)\nlen([1,2])\n"}})
 	one(c, sess{[]string{"m = macro(a){quote(unquote(a)+1)}\nm(3)\n", "m = macro(a){quote(unquote(a)*10)}\nm(3)\n"}, []string{"((3)+1)\n", "((3)*10)\n"}})
 	one(c, sess{[]string{"m = macro(a){quote(unquote(a)+1)}\nm = macro(a){quote(unquote(a)*10)}\nm(2+3)\n", "m(1)\n"}, []string{"((2+3)*10)\n", "((1)*10)\n"}})
+	// functions made by macros calling each other: separate expansions are separate functions (a closure's free variables are
+	// looked up by the identity of the function body), whether the template substitutes anything or not
+	fbody := "func(next,depth){ if depth==0 {seen=\"set by the first\"; next(next,1)} else {seen} }"
+	for vi, v := range []struct{ params, tmplText, args string }{
+		{"", fbody, ""},
+		{"p", fbody, "1"},
+		{"p", "func(next,depth){ if depth==0 {seen=unquote(p); next(next,1)} else {seen} }", "\"set by the first\""},
+		{"p", "[" + fbody + ", unquote(p)][0]", "7"},
+	} {
+		hand := "(" + strings.ReplaceAll(v.tmplText, "unquote(p)", "("+v.args+")") + ")"
+		def := "walker = macro(" + v.params + "){quote(" + v.tmplText + ")}\n"
+		call := "walker(" + v.args + ")"
+		for ui, use := range []string{"println(catch(a(b,0)))", "println(catch(b(a,0)))", "println(catch(a(a,0)))", "println(catch(a(b,0)), catch(b(a,0)))", "c2 = @; println(catch(c2(a,0)), catch(a(c2,0)))"} {
+			mk := func(x string) string { return strings.ReplaceAll(use, "@", x) }
+			// all in one input; one definition per input; uses in a later input
+			one(c, sess{[]string{def + "a = " + call + "; b = " + call + "\n" + mk(call) + "\n"}, []string{"a = " + hand + "; b = " + hand + "\n" + mk(hand) + "\n"}})
+			if (vi+ui)%2 == 0 {
+				one(c, sess{[]string{def + "a = " + call + "\n", "b = " + call + "\n", mk(call) + "\n"}, []string{"a = " + hand + "\n", "b = " + hand + "\n", mk(hand) + "\n"}})
+			}
+		}
+	}
+	// one argument used at two places of a template: two trees, as in the hand-written program (fixed defect: shared node)
+	farg := "func(g,d){if d==0{y=42;g(g,1)}else{y}}"
+	one(c, sess{[]string{"m = macro(f){quote(unquote(f)(unquote(f),0))}\nprintln(catch(m(" + farg + ")))\n"}, []string{"println(catch(((" + farg + ")((" + farg + "),0))))\n"}})
+	one(c, sess{[]string{"m = macro(f){quote([unquote(f), unquote(f)])}\np = m(" + farg + ")\nprintln(catch(p[0](p[1],0)), catch(p[1](p[0],0)))\n"}, []string{"p = ([(" + farg + "), (" + farg + ")])\nprintln(catch(p[0](p[1],0)), catch(p[1](p[0],0)))\n"}})
 	n := 500
 	if c.Thorough() {
 		n = 20000
